@@ -16,7 +16,7 @@ import os
 import random
 from typing import Dict, List, Optional
 
-from .. import examples, hexref
+from .. import bmd, examples, hexref
 from ..common import Ctx, MachineryError
 from ..renderlib import vadd, vcross, vdist, vdot, vmul, vnorm, vsub
 from ..tlc import run_tlc
@@ -507,16 +507,35 @@ def shell_stores(ctx: Ctx, rng: random.Random) -> None:
                 for op in ops:
                     op.chop(0, count=1 + n % 2)
                     op.chop(1, count=1 + n % 2)
+                shell.set_outer_patch("outer")
                 mesh = cb.Mesh()
                 mesh.add(shell)
                 mesh.assemble()
                 nverts = len(mesh.vertices)
                 mesh.write(os.path.join(ctx.tmp, "shell_bmd"))
+                with open(os.path.join(ctx.tmp, "shell_bmd"), encoding="utf-8") as fh:
+                    parsed = bmd.parse_blockmeshdict(fh.read())
             except Exception as err:  # pylint: disable=broad-except
                 ctx.violation(f"shell:write:{type(err).__name__}", f"a connected, chopped Shell is not written: {err}", rep)
                 continue
             if nverts != 2 * case["npoints"]:
                 ctx.violation("shell:nverts", f"Shell of {len(faces)} faces has {nverts} vertices, Shell.tla expects {2 * case['npoints']}", rep)
+                continue
+            # the outer patch: one quad per face, the offset corners of that face (Shell.set_outer_patch)
+            outer = [b for b in parsed["boundary"] if b["name"] == "outer"]
+            tops = [got[f][1][k] for f in range(len(faces)) for k in range(4)]
+
+            def top_id(p):
+                # (the file holds about eight decimals: match to the nearest offset corner, within a thousandth of the unit face)
+                best = min(range(len(tops)), key=lambda n: vdist(tops[n], p))
+                if vdist(tops[best], p) > 1e-3 * scale:
+                    return -1
+                return min(n for n in range(len(tops)) if vdist(tops[n], tops[best]) <= 1e-9 * max(1.0, scale))
+            want_quads = sorted(sorted(top_id(got[f][1][k]) for k in range(4)) for f in range(len(faces)))
+            got_quads = sorted(sorted(top_id(parsed["vertices"][i]["p"]) for i in q) for b in outer for q in b["quads"])
+            if len(outer) != 1 or got_quads != want_quads or len(parsed["blocks"]) != len(faces):
+                ctx.violation("shell:outer-patch", f"the outer patch of a Shell of {len(faces)} faces is not the offset faces "
+                              f"({sum(len(b['quads']) for b in outer)} quads written)", rep)
 
 
 def run(ctx: Ctx) -> None:
